@@ -26,7 +26,8 @@ def bounds(tier):
 def units(tier, seed):
     us = []
     for e in catalog.entries():
-        us.append({"name": f"stepper/{e.name}", "kind": "stepper", "entry": e.name, "cost": 10})
+        for N in ((8,) if tier == "quick" else (8, 9)):
+            us.append({"name": f"stepper/{e.name}/N{N}", "kind": "stepper", "entry": e.name, "N": N, "cost": 10})
     for i in range(6):
         us.append({"name": f"exports/{i}", "kind": "exports", "part": i, "parts": 6, "cost": 30})
     us.append({"name": "guards", "kind": "guards", "cost": 5})
@@ -96,7 +97,7 @@ def unit_stepper(u, rec):
     import exponax as ex
 
     e = catalog.by_name()[u["entry"]]
-    N = 8
+    N = u["N"]
     for D in (1, 2, 3):
         if D not in e.dims:
             # dimension-restricted class: constructing it in another dimension must be refused
